@@ -1363,6 +1363,9 @@ struct CatCase {
     ctx: u8,
     first_fwd: bool,
     first: F,
+    /// thorough tier: the second slot is fixed too (smaller batches, bounded time per case)
+    #[serde(default)]
+    second: Option<F>,
     lattice: Vec<F>,
 }
 
@@ -1571,7 +1574,11 @@ fn run_cat<C: Context>(ctx: &mut C, ctx_name: &str, case: &CatCase, rec: &mut Re
     *INSTANTIATED.lock().unwrap().entry(format!("catalogue:{}", case.op)).or_insert(0) += 1;
     let l = &case.lattice;
     let mut coords: Vec<P4> = Vec::with_capacity(l.len() * l.len() * l.len());
-    for b in l {
+    let seconds: Vec<F> = match case.second {
+        Some(b) => vec![b],
+        None => l.clone(),
+    };
+    for b in &seconds {
         for c in l {
             for d in l {
                 coords.push([case.first, *b, *c, *d]);
@@ -1594,7 +1601,7 @@ fn run_cat<C: Context>(ctx: &mut C, ctx_name: &str, case: &CatCase, rec: &mut Re
     }
     rec.class(&format!("applied/{}", case.op));
     rec.count("tuples_applied", 2 * coords.len() as u64);
-    rec.nontrivial(&(&case.def, case.ctx, case.first_fwd, case.first.0.to_bits()));
+    rec.nontrivial(&(&case.def, case.ctx, case.first_fwd, case.first.0.to_bits(), case.second.map(|b| b.0.to_bits())));
     Ok(())
 }
 
@@ -2130,7 +2137,8 @@ fn main() {
             }
         }
         let nl = lat.len();
-        let n = items.len() * 2 * nl;
+        let per_def = if thorough { 2 * nl * nl } else { 2 * nl };
+        let n = items.len() * per_def;
         run.note("catalogue_definitions", serde_json::json!(cat.len()));
         run.enumerate(
             "catalogue",
@@ -2140,7 +2148,9 @@ fn main() {
                 // definition index varies fastest: expensive definitions are spread over all chunks
                 let (op, def, ctx) = &items[i % items.len()];
                 let r = i / items.len();
-                CatCase { op: op.clone(), def: def.clone(), ctx: *ctx, first_fwd: r / nl == 0, first: lat[r % nl], lattice: lat.clone() }
+                let (first_fwd, r) = (r % 2 == 0, r / 2);
+                let second = if thorough { Some(lat[r / nl]) } else { None };
+                CatCase { op: op.clone(), def: def.clone(), ctx: *ctx, first_fwd, first: lat[r % nl], second, lattice: lat.clone() }
             },
             check_cat,
         );
